@@ -200,6 +200,7 @@ func runKnownFindings(r *rng.R) {
 			switch k.sig {
 			case "negzero-setter":
 				cfg.AllowNegZero = true
+				cfg.NegZeroHeavy = true
 			case "reveal-array-twice":
 				cfg.AllowRevealArray = true
 			case "reveal-oneof-twice":
